@@ -14,7 +14,7 @@ pub struct Obj {
     pub id: Id,
     pub kind: Kind,
     pub a: u8,
-    pub n: u8,
+    pub n: u32,
     pub strong: Vec<Option<Id>>,
     pub weak: Vec<Option<Id>>,
     pub addr: usize,
@@ -28,6 +28,8 @@ pub struct Obj {
     pub born_at: usize,
     /// a RefMut of this RCell was leaked: its contents can no longer be read (nor traced)
     pub poisoned: bool,
+    /// this object's destructor was made to panic: its block may legitimately never be released
+    pub drop_panicked: bool,
 }
 
 impl Obj {
